@@ -8,6 +8,7 @@ CONSTANTS
   WeekStarts <- MCWeekStarts
   Overrides <- MCOverrides
   Weekdays <- MCWeekdays
+  RangeSteps <- MCRangeSteps
 SPECIFICATION Spec
 CONSTRAINT Depth
 VIEW View
@@ -17,7 +18,9 @@ INVARIANT AddSubInverse
 INVARIANT ModifiersOk
 INVARIANT HistoryIndependent
 INVARIANT NavOk
+INVARIANT ElapsedConsistent
 PROPERTY ConvPreserves
 PROPERTY SetKeeps
+PROPERTY AddMovesBy
 PROPERTY CopyStutters
 CHECK_DEADLOCK FALSE
